@@ -114,7 +114,8 @@ def _chunk(args):
     col = core.Collector()
     rng = np.random.default_rng(seed)
     for ln in lines:
-        check_factor(col, core.seqify(json.loads(ln)), rng)
+        t = core.seqify(json.loads(ln))
+        core.guarded(col, lambda: check_factor(col, t, rng), "build_hank[calc_unc]", f"shape {t['cfg']}", {"transition": t})
         col.traces += 1
     return col
 
